@@ -14,6 +14,30 @@ CLAIMED = {
    text="Generated-input search with rapid over the full-mix schema grammar and option sets; every emitted file of every accepted case must parse, be gofmt-stable and type-check against exactly its declared imports (go/types with gc export data). Failures are shrunk by rapid and saved as plain-JSON replays. Sampling, not proof: right level because the property quantifies over an unbounded program space and has an exact executable validity predicate.",
    note="Domain rules R7/R8; extension objects consistent; open known findings exclude their input region by construction (see known_findings.json).",
    design="4 C01"),
+ "C05": dict(
+   technique="exhaustive order-type grid + rapid floats on NormalizeBounds (semantic interval oracle); property-based boundary sweeps executed against compiled generated code",
+   engine="E-direct + E-run",
+   text="Part 1 enumerates every presence/kind combination of the four bound keywords over a 5-point grid (all equality patterns) x 11 probe values and adds rapid-drawn floats; the oracle is semantic (a probe passes the normalised tuple iff it passes every stated keyword). Part 2 generates programs from a numeric grammar, compiles the emitted code in batches and runs boundary-sweep documents (every value on, next to and between stated constants) against the reference interval/multipleOf oracle with exact rational arithmetic. Sampling of the program space; the grid part is exhaustive for its finite domain.",
+   note="R1, R2 (dyadic multipleOf), R3. Open findings exclude integer schemas with non-integral bounds.",
+   design="4 C05"),
+ "C06": dict(
+   technique="property-based testing: generated string-constraint programs compiled and run on boundary-length / pattern-breaking documents vs rune-count and regexp oracle",
+   engine="E-run",
+   text="Generated programs cover minLength/maxLength/pattern in all presence combinations at required, optional, nullable and named-definition positions (also as array items); documents are built constructively one rune short/long or with the pattern broken while the length stays in range, ASCII and 1-4 byte runes; verdicts are compared with the reference oracle (rune count, RE2 on a curated ECMA/RE2-identical pattern family).",
+   note="R4, R6. Open finding: lengths are counted in bytes; multi-byte strings are used only where byte and rune verdicts agree.",
+   design="4 C06"),
+ "C07": dict(
+   technique="property-based testing: arrays of depth 1-3 with per-level bounds, one-level-off documents executed against compiled generated code",
+   engine="E-run",
+   text="Generated programs have array properties nested up to three deep with independent minItems/maxItems per level and element schemas of three classes; mutants make exactly one array one element short or long, substitute wrong-typed elements or invalidate one element; verdicts compared with the reference oracle.",
+   note="R3, R4. Open findings: nested levels use the outer bounds (levels get equal bounds), inline-constrained primitive items are not validated (constrained elements only through named types).",
+   design="4 C07"),
+ "C08": dict(
+   technique="property-based testing: member / non-member documents of every JSON type against compiled enum code; go/types lookup of string constants",
+   engine="E-run + E-static",
+   text="Generated enums (typed/untyped, strings, integers, numbers, booleans, null, mixtures; inline, via $ref, as array items) are compiled and every member must be accepted, decode to the member and marshal back bare, while neighbours, case/spacing variants and values of other JSON types must be rejected; go/types confirms one typed constant per listed string.",
+   note="R1, R2, R3 (null is not a must-reject input where the schema does not name it), R4.",
+   design="4 C08"),
 }
 
 def main():
